@@ -175,6 +175,21 @@ def icm_items(run: Run, rng, tier):
                           'sorted': all(pays[j] >= pays[j + 1] for j in range(len(pays) - 1))})
             run.count('icm_vectors')
             run.nontrivial.add(('icm', tuple(pays), tuple(chips)))
+    # stacks of very different sizes (a chip leader holding all but a millionth, or less, of the chips): the exact model's
+    # rationals leave TLC's integers, so only what the property states about the values themselves is decided - in units of
+    # a millionth of a prize unit: non-negative, adding up to the prize pool, ordered as the chips
+    for _ in range(60 if tier == 'quick' else 1500):
+        n = rng.randint(2, 4)
+        chips = [rng.randint(1, 9) for _ in range(n)]
+        chips[rng.randrange(n)] = rng.choice([10 ** 3, 10 ** 5, 10 ** 6, 5 * 10 ** 6, 2 * 10 ** 7, 10 ** 8, 2 * 10 ** 8]) * rng.randint(1, 9)   # < 2^31
+        if rng.random() < 0.3:
+            chips[rng.randrange(n)] = 10 ** rng.randint(3, 8)
+        pays = rng.choice([p for p in payout_sets if len(p) <= n])
+        got = calculate_icm(pays, chips)
+        items.append({'kind': 'icmprop', 'payouts': pays, 'chips': chips, 'micro': [int(round(float(x) * 10 ** 6)) for x in got],
+                      'sorted': all(pays[j] >= pays[j + 1] for j in range(len(pays) - 1))})
+        run.count('icm_lopsided_vectors')
+        run.nontrivial.add(('icmprop', tuple(pays), tuple(chips)))
     return items
 
 
